@@ -88,6 +88,9 @@ def run(tier):
                                                                             or 'behaviour differs' in p or 'not a fixpoint' in p) \
                     and ck.known('KF-C13-5', what[:200]):
                 continue
+            # KF-C13-11: a constant whose evaluated text has a line break is written between single back-quotes over two lines
+            if _re.search(r'`[^`\n]*\n[^`]*`', o.get('pretty') or '') and 'does not compile' in p and ck.known('KF-C13-11', what[:200]):
+                continue
             ck.violation({'kind': 'parse', 'inputs': {'grammar': c['ebnf'], 'label': c['label'], 'pretty': o.get('pretty')},
                           'expected': 'pretty() recompiles to the same parser and is a fixpoint', 'observed': p, 'spec': 'C13'},
                          key=c['label'].split(' ')[0] + p.split(':')[0][:40])
